@@ -285,3 +285,20 @@ impl Https {
     #[verifier::external_body] pub fn authority(&self) -> (r: &str) { unimplemented!() }
     #[verifier::external_body] pub fn as_str(&self) -> (r: &str) { unimplemented!() }
 }
+
+// Collector::repository_path (same file; verified in unit `paths`, C30): the archive path of a
+// repository; creates the authority directory, may fail fatally. It starts no request.
+#[verifier::external_body] pub struct Fatal { _opaque: () }
+impl From<Fatal> for RunFailed {
+    #[verifier::external_body] fn from(err: Fatal) -> Self { unimplemented!() }
+}
+impl Collector {
+    #[verifier::external_body]
+    fn repository_path(&self, rpki_notify: &Https) -> (r: Result<PathBuf, Fatal>) { unimplemented!() }
+}
+impl PathBuf {
+    // std::path::Path::exists / is_file / is_dir: what the file system holds; nothing is assumed
+    #[verifier::external_body] pub fn exists(&self) -> bool { unimplemented!() }
+    #[verifier::external_body] pub fn is_file(&self) -> bool { unimplemented!() }
+    #[verifier::external_body] pub fn is_dir(&self) -> bool { unimplemented!() }
+}
